@@ -289,8 +289,12 @@ def run(tier, seed, replay=None):
                 if a.targets[0].value != n or a.targets[0].to_string() != str(n):
                     R.violation({'dialect': d, 'sql': f'select {n}', 'value': repr(a.targets[0].value),
                                  'what': 'integer literal does not keep its value'})
-        for _ in range(200):
-            x = round(rng.uniform(0, 1000), rng.randint(1, 6))
+        decs = [round(rng.uniform(0, 1000), rng.randint(1, 6)) for _ in range(200)]
+        decs += [0.1 + 0.2, 1.2345678901234567, 0.30000000000000004, 123456.78901234567, 0.000123456789012345, 2.0 / 3, 1 / 3, 100.0, 0.5,
+                 9007199254740993.0, 1e15 + 0.3, 0.1 * 3] + [rng.uniform(0, 1) for _ in range(60)] + [rng.uniform(0, 1e6) for _ in range(60)]
+        from mindsdb_sql.parser.ast import Constant as Constant_, Select as Select_
+        reported = 0
+        for x in decs:
             s = repr(x)
             if 'e' in s:
                 continue
@@ -300,6 +304,16 @@ def run(tier, seed, replay=None):
                 if a.targets[0].value != x:
                     R.violation({'dialect': d, 'sql': f'select {s}', 'value': repr(a.targets[0].value),
                                  'what': 'decimal literal does not keep its value'})
+                # and the other way round: a decimal placed in a tree prints to text that denotes the same number
+                printed = Select_(targets=[Constant_(x)]).to_string()
+                try:
+                    back = parse_sql(printed, d).targets[0].value
+                except Exception as e:
+                    back = f'{type(e).__name__}'
+                if back != x and reported < 3:
+                    reported += 1
+                    R.violation({'dialect': d, 'value': repr(x), 'printed': printed, 'reparsed': repr(back),
+                                 'what': 'a decimal constant placed in a tree prints to text that does not denote the same number'})
         # identifier paths (exploration)
         id_fail = 0
         parts_pool = ['a', 'A', 'ab c', 'a.b', '1a', 'select', 'x`y', 'Ünï', 'primary_key', '', 'a$b', '$x', 'null$x', 'status$code', 'a\u00a0b', 'x\u3000y', '\ufeffz', 'q\u200bq',
